@@ -214,6 +214,11 @@ Section WithPrinters.
     map (fun x => (snd (fst x), snd x)) (filter (fun x => negb (fst (fst x))) (timer_subs mk t))
     ++ map (fun p => (fst p, VF (snd p))) (ft_pcts t).
 
+  (* at least one of the nine sub-metrics is enabled *)
+  Definition some_enabled (mk : mask) : bool :=
+    negb (d_lower mk && d_upper mk && d_count mk && d_count_ps mk && d_mean mk && d_median mk
+          && d_stddev mk && d_sum mk && d_sumsq mk).
+
   (* ---- Datadog (datadog.go processMetrics, flush.go addMetric).  Values are float64 in the
      payload: ints are converted ([VI] stays an int here, the correspondence converts),
      non-finite values are coerced. *)
